@@ -137,9 +137,10 @@ Definition number_from_str (cf : cfg) (s : bytes) : res num :=
 Definition std_parse_int (signed : bool) (lo hi : Z) (l : bytes) : option Z :=
   let '(neg, ds) :=
     match l with
-    | 43 :: r => (false, r)
-    | 45 :: r => if signed then (true, r) else (false, l)      (* unsigned: '-' is an invalid digit *)
-    | _ => (false, l)
+    | c :: r => if c =? 43 then (false, r)
+                else if (c =? 45) && signed then (true, r)      (* unsigned: '-' is an invalid digit *)
+                else (false, l)
+    | [] => (false, l)
     end in
   if all_digits ds then
     let v := digits_val ds 0 in
@@ -163,9 +164,8 @@ Definition ap_as_i128 (lit : bytes) : option Z := std_parse_int true I128_MIN I1
 (* std float parsing (assumed, see header) *)
 Definition strip_sign (l : bytes) : bool * bytes :=
   match l with
-  | 43 :: r => (false, r)
-  | 45 :: r => (true, r)
-  | _ => (false, l)
+  | c :: r => if c =? 43 then (false, r) else if c =? 45 then (true, r) else (false, l)
+  | [] => (false, l)
   end.
 
 Definition is_e (c : byte) : bool := (c =? 101) || (c =? 69).
@@ -177,8 +177,8 @@ Definition dec_parts (r : bytes) : option (bytes * bytes * Z) :=
   let r1 := skipn ni r in
   let '(fp, r2) :=
     match r1 with
-    | 46 :: t => let nf := span_len is_digit t in (firstn nf t, skipn nf t)
-    | _ => ([], r1)
+    | c :: t => if c =? 46 then let nf := span_len is_digit t in (firstn nf t, skipn nf t) else ([], r1)
+    | [] => ([], r1)
     end in
   match ip ++ fp with
   | [] => None
